@@ -48,6 +48,22 @@ CHECKS = {
             'configuration) recorded as a known finding.',
             'inside the user layer stage scope beats global scope (the statement leaves it open); bool spelling inside text, None values, cycles and override[default] are excluded',
             'DESIGN.md §3 C04'),
+    'C05': ('model_checking', 'history enumeration: the real instantiate_dowhile_next_iteration is the transition function, every (shape, k) state is compared with an independent unrolling model',
+            'E2',
+            'For 153 (quick) / 740 (thorough) DoWhile document shapes (topologies, loop-carried bindings, import stage, binding types, replicated/aggregating looped components, '
+            'colliding names, outside consumers with all methods) the real WorkflowGraph.instantiate_dowhile_next_iteration is applied k=1..12 (25 thorough) times on one live graph, '
+            'optionally with a reload from the instance in between; after EVERY step the whole state (instances, references, command lines, predecessors, placeholders, loop state, '
+            'DataReference.resolve of every outside spelling) is compared with a reference unrolling. The string-sorted iteration numbers defect was found and fixed.',
+            'backward-stage loop-carried bindings, # in non-looped names and in-loop :loopref are grey zones and not enumerated',
+            'DESIGN.md §3 C05'),
+    'C07': ('model_checking', 'operation-sequence search over the real mutators with a differential reload oracle and a store fixed-point check',
+            'E2',
+            'For 28 (quick) / 68 (thorough) packages (platform, user variable files, replication, DoWhile) every history of length <=3 over {next loop iteration with store, patch an '
+            'option + store} is executed on the real Experiment; every prefix is a state judged once: the instance is reloaded with experimentFromInstance and node set, edges, '
+            'every resolved configuration (type-sensitive), parsed references, environments, variables and loop state must equal the writing experiment; storing again must be a fixed point '
+            '(1-3 cycles). One genuine defect (patched options are not persisted) is a known finding.',
+            'FLOW_RUN_ID, stage-less reference spelling and scheduling-only edges of old loop-condition instances are normalised; behaviour of FUTURE iterations after a reload is not judged (statement speaks of iterations instantiated so far)',
+            'DESIGN.md §3 C07'),
     'C08': ('model_checking', 'explicit-state breadth-first search over histories of the real mutators/queries with canonical state hashing and a from-scratch differential oracle',
             'E2',
             'Level-synchronous BFS whose transition function is the real FlowIRConcrete / FlowIRExperimentConfiguration mutator and query calls (24-25 operations) from three '
@@ -89,6 +105,14 @@ CHECKS = {
             'Six defects found and fixed, one recorded as a known finding.',
             'rename/replace atomicity and ordering are assumed POSIX; the interposer covers the file operations the anchored writers use (checked by its self-test)',
             'DESIGN.md §2.3, §3 C14'),
+    'C15': ('exploration', 'differential enumeration across child processes: every permutation of input order, key order and listing order, and every iteration order of the identified hash-ordered sets witnessed by seed search',
+            'E2',
+            'Child interpreters with explicit PYTHONHASHSEED load a fixed corpus (FlowIR, DSL 2.0, DOSINI packages) through three entry points and print a canonical dump (names, edges, '
+            'configurations, environments, memoization hashes, instance files). Enumerated: 17 hash seeds plus a seed search until EVERY permutation of every identified set '
+            '(variable files, DOSINI option names, DSL output references, active backends) has been witnessed in a real child; every ordered selection of 1-3 variable files (absolute '
+            'layering oracle); every permutation of directory listings (n<=4) and of the keys of every small mapping. All dumps of a group must be identical. One defect found and fixed.',
+            'sets not identified are only covered by the 17-seed sweep; order/multiplicity of error messages for rejected packages is not compared',
+            'DESIGN.md §3 C15'),
     'C16': ('exploration', 'exhaustive enumeration of single-aspect (thorough: pairwise) variations of instantiated workflows, partition comparison against an independent work descriptor',
             'E2',
             'Each world is a real instantiated workflow with real files. 8 base workflows x every hash-relevant variation (executable, each argument token, each consumed byte position, '
